@@ -65,12 +65,14 @@ func (p Policy) String() string {
 // Stats says what the rendered program contains.
 type Stats struct {
 	BfChar, RangeOffset, RangeArray int // entries (not codes) of each form
-	CharSections, RangeSections    int
-	MixedRangeSections             int // bfrange sections holding both forms
-	CodesInRanges                  int
-	MultiUnitOffsetRanges          int // offset-form ranges whose target has >1 UTF-16 unit
-	ArraysSharingLine              int // array-form entries that share a physical line with another entry
-	Form                           map[string]string // string(code) -> char | offset | array
+	CharSections, RangeSections     int
+	MixedRangeSections              int // bfrange sections holding both forms
+	CodesInRanges                   int
+	MultiUnitOffsetRanges           int               // offset-form ranges whose target has >1 UTF-16 unit
+	ArraysSharingLine               int               // array-form entries that share a physical line with another entry
+	MaxSectionEntries               int               // largest number of entries in one section (<= 100)
+	MaxArrayLen                     int               // longest array of an array-form entry
+	Form                            map[string]string // string(code) -> char | offset | array
 }
 
 // Units returns the UTF-16 code units of s.
@@ -257,6 +259,9 @@ func Render(m *Map, p Policy, r *rand.Rand) ([]byte, Stats) {
 		for j < len(items) && j-i < max && (items[j].kind == "char") == class {
 			j++
 		}
+		if j-i > st.MaxSectionEntries {
+			st.MaxSectionEntries = j - i
+		}
 		if class {
 			st.CharSections++
 			w.line(fmt.Sprintf("%d beginbfchar", j-i))
@@ -282,6 +287,9 @@ func Render(m *Map, p Policy, r *rand.Rand) ([]byte, Stats) {
 					continue
 				}
 				st.RangeArray++
+				if len(it.entries) > st.MaxArrayLen {
+					st.MaxArrayLen = len(it.entries)
+				}
 				if p.Layout == "oneline" || p.Layout == "cr" {
 					st.ArraysSharingLine++
 				}
